@@ -559,6 +559,8 @@ fn run_multi(c: &MultiCase) -> CaseResult {
         let ctx = format!("op #{i} {op:?} (hz {:?}, step {} ms, {}x{} terminal, ops {:?})", c.hz, c.step_ms, it.rows, it.cols, &c.ops[..=i]);
         // whatever is painted must be consistent with the model
         it.check_frames(&out, &ctx)?;
+        // ... and has really been handed to the terminal: nothing written by the call is still waiting for a flush
+        ensure!(it.vt.unflushed() == 0, "final_frame_not_flushed", "{ctx}: the call returned with {} write(s) that were never flushed", it.vt.unflushed());
         let terminator = matches!(op, MOp::Finish(_) | MOp::FinishWithMessage(..) | MOp::FinishAndClear(_) | MOp::Abandon(_)) || (matches!(op, MOp::Drop(_)) && was_unfinished);
         if terminator {
             ensure!(!out.frames.is_empty(), "no_final_frame", "{ctx}: the call painted no frame (limiter skipped the ordinary draw just before: {last_draw_skipped})");
@@ -602,6 +604,105 @@ fn run_multi(c: &MultiCase) -> CaseResult {
     Ok(v)
 }
 
+/// Under bottom alignment (where the recorded finding F-C02a rules out the full-screen oracle once a handle
+/// is dropped) the completing calls are still required to paint: a frame is flushed by each of them, and
+/// nothing they wrote is left unflushed - a terminal that buffers until flush() would otherwise keep
+/// showing the old rows.
+fn run_bottom_flushed(c: &MultiCase) -> CaseResult {
+    let _clk = clock::Armed::new();
+    let mut it = Interp::new(c);
+    let mut v = Verdict::default();
+    let mut emptied = false;
+    for (i, op) in c.ops.iter().enumerate() {
+        clock::advance(Duration::from_millis(c.step_ms as u64));
+        let n = it.handles.len();
+        let target_tag = match op {
+            MOp::Finish(s) | MOp::FinishWithMessage(s, _) | MOp::FinishAndClear(s) | MOp::Abandon(s) | MOp::Drop(s) if n > 0 => Some(it.handles[pick(*s, n)].tag),
+            _ => None,
+        };
+        let was_unfinished = target_tag.map_or(false, |t| it.model.entries.iter().any(|e| e.tag == t && !e.st.finished()));
+        let before = it.vt.nflush();
+        let out = catch(|| it.step(op)).map_err(|p| Fail::new("panic", format!("op #{i} {op:?} panicked: {p}")))??;
+        if out.skipped {
+            continue;
+        }
+        let ctx = format!("op #{i} {op:?} (bottom alignment, hz {:?}, step {} ms, ops {:?})", c.hz, c.step_ms, &c.ops[..=i]);
+        ensure!(it.vt.unflushed() == 0, "final_frame_not_flushed", "{ctx}: the call returned with {} write(s) that were never flushed", it.vt.unflushed());
+        let terminator = matches!(op, MOp::Finish(_) | MOp::FinishWithMessage(..) | MOp::FinishAndClear(_) | MOp::Abandon(_)) || (matches!(op, MOp::Drop(_)) && was_unfinished);
+        if terminator {
+            ensure!(it.vt.nflush() > before, "no_final_frame", "{ctx}: the call painted no frame");
+            emptied |= it.model.frame().is_empty();
+        }
+    }
+    it.teardown()?;
+    v.nontrivial = emptied;
+    v.label_if(emptied, "completion_that_empties_the_region");
+    v.label("bottom_alignment");
+    Ok(v)
+}
+
+/// A bar that is completed while its MultiProgress cannot paint (hidden target) has its final state on
+/// screen - or nothing, for the clearing kinds - as soon as the MultiProgress can paint again and any
+/// member draws: what was cached before the hidden phase must not come back.
+fn run_hidden_phase(c: &MultiCase) -> CaseResult {
+    let _clk = clock::Armed::new();
+    let mut it = Interp::new(c);
+    let mut v = Verdict::default();
+    for (i, op) in c.ops.iter().enumerate() {
+        clock::advance(Duration::from_millis(c.step_ms.max(2) as u64));
+        let out = catch(|| it.step(op)).map_err(|p| Fail::new("panic", format!("op #{i} {op:?} panicked: {p}")))??;
+        if out.skipped {
+            continue;
+        }
+        let ctx = format!("op #{i} {op:?} (ops {:?})", &c.ops[..=i]);
+        it.check_frames(&out, &ctx).map_err(|f| Fail::new("final_frame_after_hidden_phase", f.msg))?;
+        v.label_if(out.note == "multi_progress_shown_again", "shown_again");
+    }
+    it.teardown()?;
+    v.nontrivial = true;
+    v.label("completed_while_hidden");
+    Ok(v)
+}
+
+fn hidden_phase_strategy(_t: Tier) -> BoxedStrategy<MultiCase> {
+    let term = prop_oneof![
+        Just(0u8), // finish
+        Just(1),   // finish_with_message
+        Just(2),   // finish_and_clear
+        Just(3),   // abandon
+        Just(4),   // drop (finish behaviour of the spec)
+    ];
+    (12u8..=30, spec_strategy(20), spec_strategy(20), any::<bool>(), term, any::<bool>(), 0u8..3)
+        .prop_map(|(cols, a, b, on_first, term, tick_while_hidden, drawn_before)| {
+            let (this, other) = if on_first { (0u16, 40000u16) } else { (40000, 0) };
+            let mut ops = vec![MOp::Add(a), MOp::Add(b)];
+            if drawn_before >= 1 {
+                ops.push(MOp::Tick(0));
+            }
+            if drawn_before >= 2 {
+                ops.push(MOp::Tick(40000));
+            }
+            ops.push(MOp::HideMp);
+            if tick_while_hidden {
+                ops.push(MOp::Inc(this, 1));
+            }
+            ops.push(match term {
+                0 => MOp::Finish(this),
+                1 => MOp::FinishWithMessage(this, "end".into()),
+                2 => MOp::FinishAndClear(this),
+                3 => MOp::Abandon(this),
+                _ => MOp::Drop(this),
+            });
+            ops.push(MOp::ShowMp);
+            // the other bar (the only handle left after a drop) draws twice
+            let o = if term == 4 { 0 } else { other };
+            ops.push(MOp::Tick(o));
+            ops.push(MOp::Inc(o, 1));
+            MultiCase { rows: 40, cols: cols as u16, hz: None, step_ms: 2, ops, final_drops: vec![] }
+        })
+        .boxed()
+}
+
 fn multi_strategy(tier: Tier) -> BoxedStrategy<MultiCase> {
     let n = tier.pick(30, 50);
     let s = || any::<u16>();
@@ -631,7 +732,7 @@ fn multi_strategy(tier: Tier) -> BoxedStrategy<MultiCase> {
         })
         .prop_map(|(cols, hz, step_ms, mut ops, final_drops)| {
             // make sure there is something to finish and that the limiter is exhausted early
-            let mut pre = vec![MOp::Add(BarSpec { two_lines: false, len: Some(9), on_finish: 0, msg: String::new(), key_nl: false })];
+            let mut pre = vec![MOp::Add(BarSpec { two_lines: false, len: Some(9), on_finish: 0, msg: String::new(), key_nl: false, blank_first: 0 })];
             if hz.is_some() {
                 pre.extend(std::iter::repeat(MOp::Tick(0)).take(22));
             }
@@ -684,6 +785,28 @@ pub fn property() -> Property {
                 essential: &["limiter_exhausted_at_terminator", "finish_order_differs_from_visual_order", "visible_final_renderings"],
                 workers: w,
                 decode: Some(|u| decode_multi(u, 1)),
+            }),
+            Box::new(Gen::<MultiCase> {
+                name: "hidden_phase",
+                rule: "two bars in a MultiProgress (0-2 of them drawn), the MultiProgress is cleared and given a hidden target, one bar is finished / finished with a message / finished and cleared / abandoned / dropped (optionally after an update) while nothing can be painted, the MultiProgress gets the terminal back and the other bar draws twice: every frame painted then is the list model's - the completed bar with its final state or, for the clearing kinds, not at all; never the rendering cached before the hidden phase",
+                strategy: hidden_phase_strategy,
+                cases: |t| t.pick(1_500, 100_000),
+                run: run_hidden_phase,
+                signature: no_signature,
+                essential: &["completed_while_hidden", "shown_again"],
+                workers: w,
+                decode: None,
+            }),
+            Box::new(Gen::<MultiCase> {
+                name: "bottom_flushed",
+                rule: "the same MultiProgress histories with bottom alignment switched on first: every finish/abandon/drop-of-unfinished flushes a frame and no call returns with writes that were never flushed (a terminal that buffers until flush() shows nothing of them); the screen content is left to C02; non-trivial = a completion emptied the region",
+                strategy: |t| multi_strategy(t).prop_map(|mut c| { c.ops.insert(0, MOp::SetAlignment(true)); c }).boxed(),
+                cases: |t| t.pick(3_000, 200_000),
+                run: run_bottom_flushed,
+                signature: no_signature,
+                essential: &["completion_that_empties_the_region", "bottom_alignment"],
+                workers: w,
+                decode: None,
             }),
         ],
     }
